@@ -135,6 +135,11 @@ def _nominal_and_modifiers_from_spec(modifier_set, config, spec, batch_size):
                         f'{x["type"]} not among {list(modifier_set)}'
                     )
                 key = f"{x['type']}/{x['name']}"
+                # a modifier can only be listed once per sample
+                if key in moddict:
+                    raise exceptions.InvalidModel(
+                        f"Multiple {x['type']} modifiers named {x['name']} were found on {s['name']} sample in {c['name']} channel."
+                    )
                 # check if the modifier to be built is allowed to be shared
                 if not modifiers_builders[x['type']].is_shared and (
                     key in _keys_seen or key in moddict
